@@ -479,13 +479,51 @@ theorem handlers_match_code :
        ("pair.IsNativeERC20()", "ConvertERC20NativeToken", "ctx, pair, sender, receiver, msg.Amount")] := by
   decide
 
-/-- the model's `MintingEnabled` takes the same decisions in the same order -/
-theorem mintingEnabled_order (s : UState) (o : Option Pair) :
-    (s.enable = false → mintingEnabled s o = .error .disabled) ∧
-    (s.enable = true → o = none → mintingEnabled s o = .error .notFound) ∧
-    (∀ p, s.enable = true → o = some p → p.enabled = false → mintingEnabled s o = .error .disabled) ∧
-    (∀ p, s.enable = true → o = some p → p.enabled = true → mintingEnabled s o = .ok p) := by
-  refine ⟨?_, ?_, ?_, ?_⟩ <;> intros <;> simp_all [mintingEnabled]
+/-- the model's `MintingEnabled` takes the same decisions in the same order; in particular a blocked receiver (every
+module account except gov, in bech32 or EVM form) is refused after the pair checks and before anything moves -/
+theorem mintingEnabled_order (s : UState) (recv : Addr) (o : Option Pair) :
+    (s.enable = false → mintingEnabled s recv o = .error .disabled) ∧
+    (s.enable = true → o = none → mintingEnabled s recv o = .error .notFound) ∧
+    (∀ p, s.enable = true → o = some p → p.enabled = false → mintingEnabled s recv o = .error .disabled) ∧
+    (∀ p, s.enable = true → o = some p → p.enabled = true → blocked recv = true → mintingEnabled s recv o = .error .invalid) ∧
+    (∀ p, s.enable = true → o = some p → p.enabled = true → blocked recv = false → mintingEnabled s recv o = .ok p) := by
+  refine ⟨?_, ?_, ?_, ?_, ?_⟩ <;> intros <;>
+    simp_all [mintingEnabled, mintingEnabledG, codeGuards, List.findSome?, guardFails]
+
+def guardOfErr : String → Option MGuard
+  | "ErrERC20Disabled" => some .globalSwitch
+  | "ErrTokenPairNotFound" => some .pairFound
+  | "ErrERC20TokenPairDisabled" => some .pairEnabled
+  | "ErrUnauthorized" => some .receiverNotBlocked
+  | "ErrSendDisabled" => some .sendEnabled
+  | _ => none
+
+open FxVerif.Gen.C08b in
+/-- **the guard list the model evaluates IS the regenerated guard list of `MintingEnabled`** (same guards, same order):
+dropping, adding or reordering a guard in the Go function changes `Gen/C08b.lean` and breaks this equation; the
+blocked-receiver guard is the one whose condition mentions `BlockedAddr(receiver` -/
+theorem mintingEnabled_guards_match_code :
+    mintingEnabled_guards.map (fun g => guardOfErr g.2) = codeGuards.map some ∧
+    (mintingEnabled_guards.filter (fun g => g.2 = "ErrUnauthorized")).map Prod.fst =
+      ["k.bankKeeper.BlockedAddr(receiver.Bytes())"] := by
+  decide
+
+/-- **a conversion to a blocked receiver is rejected and nothing changes** — in both directions, for every state,
+token, sender, amount: module accounts (erc20, crosschain chains, fee collector …) in bech32 or EVM form are never the
+receiver of a successful `MsgConvertCoin` / `MsgConvertERC20` -/
+theorem convert_to_blocked_receiver_rejected (s : UState) (x u r n : Nat) (hb : blocked (partyAddr r) = true) :
+    (∃ e, stepU s (.convertCoin x u r n) = .error e) ∧ (∃ e, stepU s (.convertERC20 x u r n) = .error e) ∧
+    stepUT s (.convertCoin x u r n) = s ∧ stepUT s (.convertERC20 x u r n) = s := by
+  have key : ∀ o, ∃ e, mintingEnabled s (partyAddr r) o = .error e := by
+    intro o
+    cases h : mintingEnabled s (partyAddr r) o with
+    | error e => exact ⟨e, rfl⟩
+    | ok p => have := (FxVerif.Proofs.C08.mintingEnabled_ok' h).2.1; rw [hb] at this; cases this
+  obtain ⟨e1, h1⟩ := key (pairByDenom s.idx x)
+  obtain ⟨e2, h2⟩ := key (pairByErc s.idx x)
+  have s1 : stepU s (.convertCoin x u r n) = .error e1 := by simp only [stepU, h1]
+  have s2 : stepU s (.convertERC20 x u r n) = .error e2 := by simp only [stepU, h2]
+  exact ⟨⟨e1, s1⟩, ⟨e2, s2⟩, by simp only [stepUT, s1], by simp only [stepUT, s2]⟩
 
 open FxVerif.Gen.C08b in
 /-- **which precompile conversions are keeper-level nested EVM executions** (the ones `mixed_tx_coherent` needs its
@@ -567,17 +605,30 @@ any target — including conversions of other tokens' denominations and of this 
 toggle, alias update and parameter update, in every state that satisfies I_index. -/
 theorem module_book_every_message (s s' : UState) (hi : IdxInv s.idx) (id : PairId) (p : Pair)
     (hp : lookup id s.idx.pairs = some p) (hext : p.external = false) (op : UOp) (h : stepU s op = .ok s') :
-    (bookM p.denom p.contract (decide (p.denom = 0))).val s'.L = (bookM p.denom p.contract (decide (p.denom = 0))).val s.L :=
+    (bookM p.denom p.contract (decide (p.denom = 0))).val s'.L =
+      (bookM p.denom p.contract (decide (p.denom = 0))).val s.L + donationM s.dead p.denom p.contract op :=
   bookM_stepU s s' hi id p hp hext op h
 
 open FxVerif.Proofs.C08 in
 /-- **I_module along every sequence of messages** (induction): from any state satisfying I_index in which no contract
 has self-destructed, every registered module-owned pair keeps its book through any list of messages -/
 theorem module_books_preserved_all_messages (s : UState) (hi : IdxInv s.idx) (hdead : s.dead = []) (ops : List UOp)
-    (hf : FreshRun s ops) (id : PairId) (p : Pair) (hp : lookup id s.idx.pairs = some p) (hext : p.external = false) :
+    (hf : FreshRun s ops) (id : PairId) (p : Pair) (hp : lookup id s.idx.pairs = some p) (hext : p.external = false)
+    (hnd : ∀ op ∈ ops, donationM [] p.denom p.contract op = 0) :
     (bookM p.denom p.contract (decide (p.denom = 0))).val (runU s ops).L =
       (bookM p.denom p.contract (decide (p.denom = 0))).val s.L :=
-  bookM_runU s hi hdead ops hf id p hp hext
+  bookM_runU s hi hdead ops hf id p hp hext hnd
+
+open FxVerif.Proofs.C08 in
+/-- **escrow ≥ supply, always** (what holds without excluding donations): along every sequence of messages the escrowed
+coins minus the ERC-20 total supply of a registered module-owned pair never decreases — the only messages that move it
+are ERC-20 → coin conversions naming the pair's own escrow account (the WFX contract) as receiver of the coins, and they
+move it up by the converted amount -/
+theorem module_books_never_decrease (s : UState) (hi : IdxInv s.idx) (hdead : s.dead = []) (ops : List UOp)
+    (hf : FreshRun s ops) (id : PairId) (p : Pair) (hp : lookup id s.idx.pairs = some p) (hext : p.external = false) :
+    (bookM p.denom p.contract (decide (p.denom = 0))).val s.L ≤
+      (bookM p.denom p.contract (decide (p.denom = 0))).val (runU s ops).L :=
+  bookM_runU_mono s hi hdead ops hf id p hp hext
 
 /-! ### I_external over every message (unified model, dynamic alias sets) -/
 
@@ -593,6 +644,14 @@ theorem external_book_every_message (s s' : UState) (hi : IdxInv s.idx) (id : Pa
     (hmd : lookup p.denom s.idx.md = some as) (hn : (p.denom :: as).Nodup) (op : UOp) (h : stepU s op = .ok s') :
     (bookE p.denom p.contract as).val s'.L = (bookE p.denom p.contract as).val s.L + extDelta s.idx p op :=
   bookE_stepU s s' hi id p hp hext as hmd hn op h
+
+open FxVerif.Proofs.C08 in
+/-- what the blocked-receiver guard protects: the same flow with the erc20 module account as receiver (a self-transfer
+of the released tokens, the coins burned all the same) would leave the escrow `n` above the coin supply.
+`external_book_every_message` uses the guard to exclude it. -/
+theorem external_book_without_receiver_guard (d ct : Nat) (as : List Nat) (hn : (d :: as).Nodup) (u n : Nat) :
+    (bookE d ct as).flowDelta (convertCoinU .externalOwned d ct (.user u) .erc20Mod n) = (n : Int) :=
+  bookE_convertCoinU_to_module d ct as hn u n
 
 open FxVerif.Proofs.C08 in
 /-- corollary: every message other than `MsgConvertDenom` keeps I_external of every externally-owned pair -/
@@ -632,55 +691,20 @@ theorem family_book_every_message (s s' : UState) (hi : IdxInv s.idx) (id : Pair
 section Exact
 open FxVerif.Proofs.C08
 
-/-- what a successful `stepU` of a conversion message did, in terms of the pair it found and the flow it ran -/
-theorem stepU_convertCoin_ok (s s' : UState) (d u r n : Nat) (h : stepU s (.convertCoin d u r n) = .ok s') :
-    ∃ p, pairByDenom s.idx d = some p ∧
-      ((s.dead.contains p.contract = true ∧ s' = { s with idx := removePair s.idx p }) ∨
-       (s.dead.contains p.contract = false ∧ ∃ L', runFlow (convertCoinU p.kind d p.contract (.user u) (.user r) n) s.L = .ok L' ∧
-          s' = { s with L := L' })) := by
-  simp only [stepU] at h
-  split at h; · cases h
-  rename_i p hme
-  refine ⟨p, mintingEnabled_ok hme, ?_⟩
-  split at h
-  · rename_i hd; cases h; exact Or.inl ⟨hd, rfl⟩
-  · rename_i hd
-    simp only [UState.withLedger] at h
-    split at h
-    · rename_i L' hr; cases h; exact Or.inr ⟨by simpa using hd, L', hr, rfl⟩
-    · cases h
-
-theorem stepU_convertERC20_ok (s s' : UState) (ct u r n : Nat) (h : stepU s (.convertERC20 ct u r n) = .ok s') :
-    ∃ p, pairByErc s.idx ct = some p ∧
-      ((s.dead.contains p.contract = true ∧ s' = { s with idx := removePair s.idx p }) ∨
-       (s.dead.contains p.contract = false ∧
-          ∃ L', runFlow (convertERC20U p.kind p.denom p.contract (.user u) (.user r) n) s.L = .ok L' ∧ s' = { s with L := L' })) := by
-  simp only [stepU] at h
-  split at h; · cases h
-  rename_i p hme
-  refine ⟨p, mintingEnabled_ok hme, ?_⟩
-  split at h
-  · rename_i hd; cases h; exact Or.inl ⟨hd, rfl⟩
-  · rename_i hd
-    simp only [UState.withLedger] at h
-    split at h
-    · rename_i L' hr; cases h; exact Or.inr ⟨by simpa using hd, L', hr, rfl⟩
-    · cases h
-
 /-- **convert_exact, `MsgConvertCoin` (unified)**: a successful message on a live pair changes, among all accounts
 other than the erc20 module account and the WFX contract and among ALL denominations and ALL contracts, exactly: the
 sender's balance of the message's coin denomination (−n) and the receiver's balance of the ERC-20 of the pair
 registered for that denomination (+n); the indexes are untouched -/
 theorem convertCoin_exact_unified (s s' : UState) (d u r n : Nat) (h : stepU s (.convertCoin d u r n) = .ok s')
     (hlive : ∀ p, pairByDenom s.idx d = some p → s.dead.contains p.contract = false) :
-    ∃ p, pairByDenom s.idx d = some p ∧ s'.idx = s.idx ∧
+    ∃ p, pairByDenom s.idx d = some p ∧ s'.idx = s.idx ∧ blocked (partyAddr r) = false ∧
       ∀ (a : Asset) (x : Addr), x ≠ .erc20Mod → x ≠ .wfx →
-        (s'.L.bal a x : Int) = s.L.bal a x + (if a = .erc p.contract ∧ x = .user r then (n : Int) else 0)
+        (s'.L.bal a x : Int) = s.L.bal a x + (if a = .erc p.contract ∧ x = partyAddr r then (n : Int) else 0)
           - (if a = coinAsset d ∧ x = .user u then (n : Int) else 0) := by
-  obtain ⟨p, hp, hcase⟩ := stepU_convertCoin_ok s s' d u r n h
+  obtain ⟨p, hp, hnb, hcase⟩ := stepU_convertCoin_ok s s' d u r n h
   rcases hcase with ⟨hd, _⟩ | ⟨_, L', hr, rfl⟩
   · rw [hlive p hp] at hd; cases hd
-  · refine ⟨p, hp, rfl, fun a x h1 h2 => ?_⟩
+  · refine ⟨p, hp, rfl, hnb, fun a x h1 h2 => ?_⟩
     have := runFlow_obs (balObs_sound a x) _ _ _ hr
     simp only [balObs] at this
     rw [this]
@@ -688,7 +712,8 @@ theorem convertCoin_exact_unified (s s' : UState) (d u r n : Nat) (h : stepU s (
     have h2' : ¬ Addr.wfx = x := fun e => h2 e.symm
     have hne : ∀ ct, ¬ coinAsset d = Asset.erc ct := fun ct => coinAsset_ne_erc d ct
     have hne' : ∀ ct, ¬ Asset.erc ct = coinAsset d := fun ct => erc_ne_coinAsset d ct
-    by_cases ha1 : a = .erc p.contract <;> by_cases ha2 : a = coinAsset d <;> by_cases hx1 : x = .user r <;>
+    generalize partyAddr r = ra
+    by_cases ha1 : a = .erc p.contract <;> by_cases ha2 : a = coinAsset d <;> by_cases hx1 : x = ra <;>
       by_cases hx2 : x = .user u <;> cases p.kind <;>
       simp [convertCoinU, Obs.flowDelta, balObs, E, ha1, ha2, hx1, hx2, h1, h2, h1', h2', hne, hne', eq_comm] <;>
       (try simp_all) <;> (try omega)
@@ -696,14 +721,14 @@ theorem convertCoin_exact_unified (s s' : UState) (d u r n : Nat) (h : stepU s (
 /-- **convert_exact, `MsgConvertERC20` (unified)** -/
 theorem convertERC20_exact_unified (s s' : UState) (ct u r n : Nat) (h : stepU s (.convertERC20 ct u r n) = .ok s')
     (hlive : ∀ p, pairByErc s.idx ct = some p → s.dead.contains p.contract = false) :
-    ∃ p, pairByErc s.idx ct = some p ∧ s'.idx = s.idx ∧
+    ∃ p, pairByErc s.idx ct = some p ∧ s'.idx = s.idx ∧ blocked (partyAddr r) = false ∧
       ∀ (a : Asset) (x : Addr), x ≠ .erc20Mod → x ≠ .wfx →
-        (s'.L.bal a x : Int) = s.L.bal a x + (if a = coinAsset p.denom ∧ x = .user r then (n : Int) else 0)
+        (s'.L.bal a x : Int) = s.L.bal a x + (if a = coinAsset p.denom ∧ x = partyAddr r then (n : Int) else 0)
           - (if a = .erc p.contract ∧ x = .user u then (n : Int) else 0) := by
-  obtain ⟨p, hp, hcase⟩ := stepU_convertERC20_ok s s' ct u r n h
+  obtain ⟨p, hp, hnb, hcase⟩ := stepU_convertERC20_ok s s' ct u r n h
   rcases hcase with ⟨hd, _⟩ | ⟨_, L', hr, rfl⟩
   · rw [hlive p hp] at hd; cases hd
-  · refine ⟨p, hp, rfl, fun a x h1 h2 => ?_⟩
+  · refine ⟨p, hp, rfl, hnb, fun a x h1 h2 => ?_⟩
     have := runFlow_obs (balObs_sound a x) _ _ _ hr
     simp only [balObs] at this
     rw [this]
@@ -711,7 +736,8 @@ theorem convertERC20_exact_unified (s s' : UState) (ct u r n : Nat) (h : stepU s
     have h2' : ¬ Addr.wfx = x := fun e => h2 e.symm
     have hne : ∀ c, ¬ coinAsset p.denom = Asset.erc c := fun c => coinAsset_ne_erc _ c
     have hne' : ∀ c, ¬ Asset.erc c = coinAsset p.denom := fun c => erc_ne_coinAsset _ c
-    by_cases ha1 : a = .erc p.contract <;> by_cases ha2 : a = coinAsset p.denom <;> by_cases hx1 : x = .user r <;>
+    generalize partyAddr r = ra
+    by_cases ha1 : a = .erc p.contract <;> by_cases ha2 : a = coinAsset p.denom <;> by_cases hx1 : x = ra <;>
       by_cases hx2 : x = .user u <;> cases p.kind <;>
       simp [convertERC20U, Obs.flowDelta, balObs, E, ha1, ha2, hx1, hx2, h1, h2, h1', h2', hne, hne', eq_comm] <;>
       (try simp_all) <;> (try omega)
@@ -721,13 +747,13 @@ theorem stepU_ledger_flow (s s' : UState) (op : UOp) (h : stepU s op = .ok s') :
     s'.L = s.L ∨ ∃ fl, runFlow fl s.L = .ok s'.L ∧
       ∀ univ : List Addr, Addr.erc20Mod ∈ univ → Addr.wfx ∈ univ →
         (match op with
-          | .convertCoin _ u r _ => Addr.user u ∈ univ ∧ Addr.user r ∈ univ
-          | .convertERC20 _ u r _ => Addr.user u ∈ univ ∧ Addr.user r ∈ univ
+          | .convertCoin _ u r _ => Addr.user u ∈ univ ∧ partyAddr r ∈ univ
+          | .convertERC20 _ u r _ => Addr.user u ∈ univ ∧ partyAddr r ∈ univ
           | .convertDenom _ u r _ _ => Addr.user u ∈ univ ∧ Addr.user r ∈ univ
           | _ => True) → ∀ p ∈ fl, p.addrsIn univ := by
   cases op with
   | convertCoin d u r n =>
-    obtain ⟨p, _, hcase⟩ := stepU_convertCoin_ok s s' d u r n h
+    obtain ⟨p, _, _, hcase⟩ := stepU_convertCoin_ok s s' d u r n h
     rcases hcase with ⟨_, rfl⟩ | ⟨_, L', hr, rfl⟩
     · exact Or.inl rfl
     · refine Or.inr ⟨_, hr, fun univ hE hW hu q hq => ?_⟩
@@ -735,7 +761,7 @@ theorem stepU_ledger_flow (s s' : UState) (op : UOp) (h : stepU s op = .ok s') :
       cases k <;> simp only [convertCoinU, List.mem_cons, List.not_mem_nil, or_false] at hq <;>
         rcases hq with rfl | rfl | rfl <;> simp [Prim.addrsIn, E, hu.1, hu.2, hE, hW]
   | convertERC20 ct u r n =>
-    obtain ⟨p, _, hcase⟩ := stepU_convertERC20_ok s s' ct u r n h
+    obtain ⟨p, _, _, hcase⟩ := stepU_convertERC20_ok s s' ct u r n h
     rcases hcase with ⟨_, rfl⟩ | ⟨_, L', hr, rfl⟩
     · exact Or.inl rfl
     · refine Or.inr ⟨_, hr, fun univ hE hW hu q hq => ?_⟩
@@ -774,8 +800,8 @@ contract, over any finite universe of accounts containing the message's users, t
 theorem sum_preserved_unified (s s' : UState) (op : UOp) (h : stepU s op = .ok s')
     (univ : List Addr) (hn : univ.Nodup) (hE : Addr.erc20Mod ∈ univ) (hW : Addr.wfx ∈ univ)
     (hu : match op with
-          | .convertCoin _ u r _ => Addr.user u ∈ univ ∧ Addr.user r ∈ univ
-          | .convertERC20 _ u r _ => Addr.user u ∈ univ ∧ Addr.user r ∈ univ
+          | .convertCoin _ u r _ => Addr.user u ∈ univ ∧ partyAddr r ∈ univ
+          | .convertERC20 _ u r _ => Addr.user u ∈ univ ∧ partyAddr r ∈ univ
           | .convertDenom _ u r _ _ => Addr.user u ∈ univ ∧ Addr.user r ∈ univ
           | _ => True)
     (a : Asset) (hwf : s.L.WF univ a) : s'.L.WF univ a := by
